@@ -163,7 +163,7 @@ def judge(stats, known, case, violations):
 
 
 def hyp_search(stats, known, strategy, prop, max_examples, seed, classify=None, shrink=True, rounds=3,
-               stateful_steps=None):
+               shrink_budget_s=None):
     """Drive `prop(case) -> [violation]` with Hypothesis.
 
     prop must be a pure function of the case. Violations matching an open known finding are counted and the
@@ -174,6 +174,8 @@ def hyp_search(stats, known, strategy, prop, max_examples, seed, classify=None, 
     import hypothesis
     from hypothesis import given, settings, HealthCheck, Phase
 
+    if shrink_budget_s is None:
+        shrink_budget_s = float(os.environ.get('VERIF_SHRINK_S', '25'))
     found_sigs = set()
     phases = [Phase.explicit, Phase.generate, Phase.target]
     if shrink:
@@ -182,9 +184,11 @@ def hyp_search(stats, known, strategy, prop, max_examples, seed, classify=None, 
         state = {'last': None, 'count': 0}
 
         def body(case):
+            shrinking = state.get('failing', False)
+            if shrinking and time.time() > state['deadline']:
+                return  # shrink budget used up: let the shrinker run dry, the best failing case so far is kept
             vs = prop(case)
             state['count'] += 1
-            shrinking = state.get('failing', False)
             new = [v for v in vs if not known.matches(v) and v['sig'] not in found_sigs]
             if not shrinking:
                 for v in vs:
@@ -196,8 +200,13 @@ def hyp_search(stats, known, strategy, prop, max_examples, seed, classify=None, 
                 else:
                     stats.case(case, True)
             if new:
-                state['failing'] = True
-                state['last'] = (case, new)
+                if not shrinking:
+                    state['failing'] = True
+                    state['deadline'] = time.time() + shrink_budget_s
+                size = len(jdump(case))
+                if state['last'] is None or size <= state['last'][2] or new[0]['sig'] != state['last'][1][0]['sig']:
+                    if state['last'] is None or new[0]['sig'] == state['last'][1][0]['sig'] or size <= state['last'][2]:
+                        state['last'] = (case, new, size)
                 raise AssertionError(new[0]['sig'])
 
         test = settings(max_examples=max_examples, database=None, deadline=None, derandomize=False,
@@ -213,7 +222,7 @@ def hyp_search(stats, known, strategy, prop, max_examples, seed, classify=None, 
             # Flaky / FailedHealthCheck etc: if a failing case was captured keep it, else it is a harness problem
             if state['last'] is None:
                 raise HarnessError('hypothesis: %r' % (e,))
-        case, new = state['last']
+        case, new, _size = state['last']
         for v in new[:1]:
             stats.violations.append((v, case))
             found_sigs.add(v['sig'])
